@@ -6,6 +6,7 @@ Not decided: the descendant arithmetic (C07) and the fan-out sum."""
 from ..terms import fn_terms, fmt, strip_site, walk, const_int
 from ..query import loops_of, every_iteration, returns_under, is_variant, pushes_to, mutators_of, ref_key, linear
 from ..run import where
+from ..consts import const_py
 from .cell_common import peel
 
 UNC = "a5::core::compact::uncompact"
@@ -104,72 +105,138 @@ def run(ctx):
     appends = pushes_to(ft, key)
     non_append = [c for c in muts if c not in appends]
     run.inst("C09.U1", "append-only", bool(appends) and not non_append, "output vector is touched by %s" % sorted({c.callee.split("::")[-1] for c in muts}), w)
+    # ---- everything below reads loops through "the k-th item of the sequence the loop walks" (query.seq_nth), so that
+    # `for &c in cells`, `for (i, &c) in cells.iter().enumerate()`, `cells.iter().zip(aux.iter())`, `while i < cells.len()`
+    # and a walk over a local vector that holds one record per input element are all the same thing: iteration k
+    # works on cells[k], in increasing k.
+    from ..query import seq_nth, subst_terms, KSYM
+    from .cell_common import canon
+    P1 = ("param", 1)
+    ELEM_K = ("elem", P1, KSYM)
+
+    def loop_map(l):
+        if l.source is None or l.item is None:
+            return None
+        r = seq_nth(ft, l.source)
+        if r is None:
+            return None
+        return {strip_site(l.item): r[0]}, r[1]
+
+    def local_key_of(base):
+        # canonical collection term -> place key of a local vector
+        b = base
+        while b[0] in ("ref", "deref"):
+            b = b[2] if b[0] == "ref" else b[1]
+        if b[0] == "phi":
+            return "_%d" % b[3]
+        if b[0] == "escaped":
+            return "_%d" % b[1]
+        return None
+
+    aligned = {}      # local vector key -> value of its k-th element, as a term over KSYM and the input
+
+    def norm(l_map, t, depth=0):
+        """term of a loop body with the loop item replaced by the k-th item, element reads canonical, and reads of
+        aligned local vectors at position k replaced by what was recorded there"""
+        x = canon(subst_terms(strip_site(t), l_map))
+
+        def res(y, d=0):
+            if not isinstance(y, tuple) or not y or d > 40:
+                return y
+            if y[0] == "elem":
+                k2 = local_key_of(y[1])
+                co, kk = linear(y[2])
+                co = {a: c for a, c in co.items() if c != 0}
+                if k2 in aligned and kk == 0 and co == {KSYM: 1}:
+                    return aligned[k2]
+                if kk == 0 and co == {KSYM: 1}:
+                    return ("elem", res(y[1], d + 1), KSYM)      # 0 + k, k + 0, ... are position k
+                return ("elem", res(y[1], d + 1), res(y[2], d + 1))
+            if y[0] == "field" and isinstance(y[1], tuple):
+                b = res(y[1], d + 1)
+                while b[0] in ("ref", "deref"):
+                    b = b[2] if b[0] == "ref" else b[1]
+                if b[0] == "agg" and str(y[2]).isdigit() and int(y[2]) < len(b[3]):
+                    return b[3][int(y[2])]
+                return ("field", b, y[2])
+            if y[0] in ("deref",):
+                b = res(y[1], d + 1)
+                return b if b[0] in ("elem", "agg", "call", "sym", "bin") else ("deref", b)
+            if y[0] == "ref":
+                return res(y[2], d + 1)
+            return tuple(res(z, d + 1) for z in y)
+        return res(x)
+
+    def full_forward(l, lm):
+        """does loop l visit k = 0, 1, .. up to the number of input cells (directly, by index, or through an aligned vector)?"""
+        mp, count = lm
+        itm = list(mp.values())[0]
+        probe = norm(mp, l.item)
+        # the item (or one of its components) must be cells[k] itself or a record of it
+        has_elem = any(y == ELEM_K for y in walk(probe)) or (isinstance(probe, tuple) and probe == ELEM_K)
+        if count is not None:
+            cco, ck = linear(norm(mp, count))
+            cco = {a: c for a, c in cco.items() if c != 0}
+            lenok = ck == 0 and len(cco) == 1 and list(cco.values()) == [1]
+            if lenok:
+                c_ = list(cco)[0]
+                lenok = c_[0] == "call" and isinstance(c_[1], str) and c_[1].endswith("::len") and any(z == P1 for z in walk(c_))
+            return lenok, has_elem
+        return True, has_elem
+
+    # aligned vectors: pushed exactly once in every iteration of a full forward traversal of the input
+    trav = {}
+    for l in lps:
+        lm = loop_map(l)
+        if lm is not None:
+            trav[l.head] = (l, lm)
+    changed = True
+    rounds = 0
+    while changed and rounds < 4:
+        changed = False
+        rounds += 1
+        for head, (l, lm) in trav.items():
+            okfull, _he = full_forward(l, lm)
+            if not okfull:
+                continue
+            for c in ft.calls():
+                if c.block in l.own and c.callee and c.callee.endswith("Vec::push"):
+                    k2 = ref_key(c.args[0])
+                    if k2 is None or k2 == key or k2 in aligned:
+                        continue
+                    rp = pushes_to(ft, k2)
+                    if len(rp) != 1 or [m for m in mutators_of(ft, k2) if m not in rp] or not every_iteration(ft, l, c.block):
+                        continue
+                    aligned[k2] = norm(lm[0], c.args[1])
+                    changed = True
+    for n_al, (k2, v) in enumerate(sorted(aligned.items())):
+        nm_al = ft.fn["locals"][int(k2[1:])].get("name") or ("#%d" % n_al)
+        run.inst("C09.U2", "aligned-sequence:" + nm_al, True, "local sequence %s holds, at position k, %s (one push per input element, in input order)" % (k2, fmt(v)[:90]), w, nontrivial=False)
+
     loops_with = [l for l in lps if any(c.block in l.own for c in appends)]
     one_loop = len(loops_with) == 1 and all(any(c.block in l.own for l in loops_with) for c in appends)
     fwd = False
-    views = []
-    if one_loop and loops_with[0].source is not None:
-        fwd, views = input_iter(loops_with[0].source)
-        fwd = fwd and not any(v in ("rev",) for v in views)
-    derived_pos = None
-    if one_loop and not fwd and loops_with[0].source is not None:
-        # the loop may walk a local sequence that holds one record per input element, in input order, each record
-        # carrying the input element itself: an order-preserving image of the input
-        k2 = iter_vec_key(loops_with[0].source)
-        if k2 is not None and k2 != key:
-            rp = pushes_to(ft, k2)
-            rl = [l for l in lps if any(c.block in l.own for c in rp)]
-            if (len(rp) == 1 and len(rl) == 1 and rp[0].callee.endswith("Vec::push") and rl[0].source is not None and input_iter(rl[0].source)[0]
-                    and not any(isinstance(v, tuple) or v in ("rev", "enumerate") for v in input_iter(rl[0].source)[1])
-                    and every_iteration(ft, rl[0], rp[0].block) and not [c for c in mutators_of(ft, k2) if c not in rp]):
-                v = peel(rp[0].args[1])
-                it2 = strip_site(peel(rl[0].item))
-                if strip_site(v) == it2:
-                    derived_pos = ()
-                elif v[0] == "agg" and v[1] == "tuple":
-                    hits = [i for i, o in enumerate(v[3]) if strip_site(peel(o)) == it2]
-                    if len(hits) == 1:
-                        derived_pos = (hits[0],)
-                if derived_pos is not None:
-                    fwd = not any(x in ("rev",) for x in _views_of(loops_with[0].source))
-                    run.inst("C09.U2", "image-sequence-aligned", True,
-                             "the sequence walked by the assembly loop holds one record per input element, pushed in input order, carrying the element itself", w)
-    run.inst("C09.U1", "single-forward-loop", one_loop and fwd, "all appends happen in one loop over %s" % (fmt(loops_with[0].source) if loops_with else "?"), w)
+    lmL = None
+    if one_loop:
+        lmL = loop_map(loops_with[0])
+        if lmL is not None:
+            okfull, has_elem = full_forward(loops_with[0], lmL)
+            if not has_elem:
+                # a walk over an aligned vector: its k-th record must carry cells[k]
+                probe = norm(lmL[0], loops_with[0].item)
+                has_elem = any(y == ELEM_K for y in walk(probe)) or probe == ELEM_K
+                src_key = iter_vec_key(loops_with[0].source)
+                okfull = okfull or src_key in aligned
+            fwd = okfull       # what each iteration appends is checked per append below
+    run.inst("C09.U1", "single-forward-loop", one_loop and fwd, "all appends happen in one loop that visits the input cells in order: k-th item = %s" % (
+        fmt(list(lmL[0].values())[0])[:80] if lmL else "?"), w)
     if not (one_loop and fwd):
         return
     L = loops_with[0]
-    item = L.item
-    enum = "enumerate" in views
-    zips = [v for v in views if isinstance(v, tuple)]
-    elem = ("field", item, 1) if enum else item
-    idx = ("field", item, 0) if enum else None
-    if derived_pos is not None:
-        enum, zips, idx = False, [], None
-        elem = ("field", item, derived_pos[0]) if derived_pos else item
-    if zips:
-        # for (cell, extra) in cells.iter().zip(aux.iter()): the input element is one component of the item, and the
-        # companion sequence must hold exactly one record per input element, in input order
-        _z, pos, other = zips[0]
-        elem = ("field", item, pos)
-        aux_key = iter_vec_key(other)
-        okz = False
-        if aux_key is not None:
-            rp = pushes_to(ft, aux_key)
-            rl = [l for l in lps if any(c.block in l.own for c in rp)]
-            okz = (len(rp) == 1 and len(rl) == 1 and rl[0].source is not None and input_iter(rl[0].source)[0]
-                   and not any(isinstance(v, tuple) for v in input_iter(rl[0].source)[1]) and every_iteration(ft, rl[0], rp[0].block)
-                   and not [c for c in mutators_of(ft, aux_key) if c not in rp])
-            if okz:
-                v = peel(rp[0].args[1])
-                it2 = rl[0].item
-                okz = (v[0] == "call" and v[1] == NUMCH and v[2][1] == ("param", 2) and peel(v[2][0])[0] == "call" and peel(v[2][0])[1] == GETRES
-                       and strip_site(peel(peel(v[2][0])[2][0])) == strip_site(peel(it2)))
-        run.inst("C09.U2", "companion-sequence-aligned", okz,
-                 "the sequence zipped with the input holds get_num_children(get_resolution(cells[k]), target) pushed once per input element, in input order", w)
+    mpL = lmL[0]
     # every iteration appends exactly one of the alternatives
     blocks = {c.block for c in appends}
     covered = True
-    # every path from the Some-branch back to the header passes one of the append blocks (or leaves the function)
     seen = set()
     st = [L.some_succ]
     while st:
@@ -180,105 +247,114 @@ def run(ctx):
         if b == L.head:
             covered = False
             break
-        for s in ft.cfg.succ[b]:
-            if s in L.body:
-                st.append(s)
+        for s_ in ft.cfg.succ[b]:
+            if s_ in L.body:
+                st.append(s_)
     run.inst("C09.U1", "every-element-contributes", covered, "each iteration reaches a push/extend before the next element", w)
     # U2
     for c in appends:
-        v = peel(c.args[1])
+        v = norm(mpL, c.args[1])
         if c.callee.endswith("Vec::push"):
-            ok = strip_site(peel(v)) == strip_site(peel(elem)) or strip_site(v) == strip_site(("deref", elem))
-            run.inst("C09.U2", "copy-of-own-element", ok, "pushed value %s (must be the element of this iteration)" % fmt(v), where(c.span))
+            run.inst("C09.U2", "copy-of-own-element", v == ELEM_K, "pushed value %s (must be the element of this iteration, cells[k])" % fmt(v)[:80], where(c.span))
         else:
             kids = [x for x in walk(v) if x[0] == "call" and x[1] == CHILDREN]
             ok = len(kids) == 1 and v[0] == "payload" and v[1] == "Ok"
             if ok:
                 a0, a1 = kids[0][2]
-                ok = strip_site(peel(a0)) == strip_site(peel(elem)) and is_variant(a1, "Some") and a1[3][0] == ("param", 2)
-            run.inst("C09.U2", "expand-own-element-to-target", ok, "extended with %s (must be cell_to_children(element, Some(target_resolution))?)" % fmt(v), where(c.span))
-    # the resolution consulted in the loop
-    nums = [c for c in ft.calls() if c.callee == NUMCH and c.block in L.own]
-    resvec = None
-    for c in nums:
-        r = peel(c.args[0])
-        ok = False
-        why = "fan-out computed from %s" % fmt(r)
-        if r[0] == "call" and r[1] == GETRES:
-            ok = strip_site(peel(r[2][0])) == strip_site(peel(elem))
-        elif r[0] == "call" and r[1].endswith("::index") and idx is not None:
-            ok = strip_site(r[2][1]) == strip_site(idx)
-            resvec = ref_key(r[2][0])
-            why += " (resolutions[i] with i the enumeration index of the same iteration)"
-        ok = ok and c.args[1] == ("param", 2)
-        run.inst("C09.U2", "fanout-of-own-element", ok, why, where(c.span))
-    if resvec is not None:
-        rp = pushes_to(ft, resvec)
-        rl = [l for l in lps if any(c.block in l.own for c in rp)]
-        okr = len(rp) == 1 and len(rl) == 1 and rl[0].source is not None and input_iter(rl[0].source)[0] and every_iteration(ft, rl[0], rp[0].block)
-        if okr:
-            v = peel(rp[0].args[1])
-            okr = v[0] == "call" and v[1] == GETRES and strip_site(peel(v[2][0])) == strip_site(peel(rl[0].item))
-        others = [c for c in mutators_of(ft, resvec) if c not in rp]
-        run.inst("C09.U2", "resolutions-recorded-in-order", bool(okr) and not others, "resolutions[k] = get_resolution(cells[k]) pushed once per input element, in input order", w)
+                ok = a0 == ELEM_K and is_variant(a1, "Some") and a1[3][0] == ("param", 2)
+            run.inst("C09.U2", "expand-own-element-to-target", ok, "extended with %s (must be cell_to_children(cells[k], Some(target_resolution))?)" % fmt(v)[:100], where(c.span))
+    # the fan-out consulted in the loop: get_num_children(get_resolution(cells[k]), target), computed here or recorded earlier
+    WANT_RES = ("call", GETRES, (ELEM_K,))
+    nfan = 0
+    for c in ft.calls():
+        if c.callee == NUMCH and c.block in L.own:
+            nfan += 1
+            r = norm(mpL, c.args[0])
+            ok = r == WANT_RES and c.args[1] == ("param", 2)
+            run.inst("C09.U2", "fanout-of-own-element", ok, "fan-out computed from %s and %s (must be get_resolution(cells[k]) and the target)" % (fmt(r)[:60], fmt(c.args[1])), where(c.span))
+    if nfan == 0:
+        # the decision uses a value recorded per element: some switch in the loop must depend on get_num_children(get_resolution(cells[k]), target)
+        WANT_N = ("call", NUMCH, (WANT_RES, ("param", 2)))
+        hits = 0
+        for b in L.own:
+            if ft.blocks[b]["term"]["k"] == "switch" and b != L.item_switch:
+                d = norm(mpL, ft.switch_term(b))
+                if any(y == WANT_N for y in walk(d)):
+                    hits += 1
+        run.inst("C09.U2", "fanout-of-own-element", hits >= 1, "the copy-or-expand decision reads the fan-out recorded for the same element (%d test(s) on get_num_children(get_resolution(cells[k]), target))" % hits, w)
     # U3
     errs = [t for t in returns_under(ft, {}) if is_variant(t, "Err")]
     guard_loops = []
-    for l in lps:
-        if l.source is None or not input_iter(l.source)[0]:
+    for head, (l, lm) in trav.items():
+        okfull, has_elem = full_forward(l, lm)
+        if not okfull:
             continue
         for b in l.own:
             tm = ft.blocks[b]["term"]
-            if tm["k"] != "switch":
+            if tm["k"] != "switch" or b == l.item_switch:
                 continue
-            d = ft.switch_term(b)
-            if d[0] == "bin" and d[1] in ("Lt", "Gt", "Le", "Ge") and any(x[0] == "call" and x[1] == GETRES for x in walk(d)) and any(x == ("param", 2) for x in walk(d)):
-                guard_loops.append((l, b, d))
+            d0 = ft.switch_term(b)
+            d = norm(lm[0], d0)
+            if d[0] == "bin" and d[1] in ("Lt", "Gt", "Le", "Ge") and any(y == WANT_RES for y in walk(d)) and any(y == ("param", 2) for y in walk(d)):
+                guard_loops.append((l, b, d0, d))
     if len(guard_loops) != 1:
-        run.bad("C09.U3", "finer-than-target-test", "expected one comparison of get_resolution(cell) with the target inside a loop over the input, found %d" % len(guard_loops), w)
+        run.bad("C09.U3", "finer-than-target-test", "expected one comparison of get_resolution(cells[k]) with the target inside a loop over the input, found %d" % len(guard_loops), w)
     else:
-        l, b, d = guard_loops[0]
-        co, k = linear(d[2])
-        co2, k2 = linear(d[3])
-        gr = [x for x in walk(d) if x[0] == "call" and x[1] == GETRES][0]
-        own = strip_site(peel(gr[2][0])) == strip_site(peel(l.item))
+        l, b, d0, d = guard_loops[0]
         ev = every_iteration(ft, l, b)
-        # orientation: Err exactly when resolution > target
+        co, k = linear(d[2])
+        co2, k2_ = linear(d[3])
         diff = {}
         for a, c in co.items():
             diff[a] = diff.get(a, 0) + c
         for a, c in co2.items():
             diff[a] = diff.get(a, 0) - c
-        kk = k - k2
-        gs = strip_site(gr)
-        tcoef, rcoef = diff.get(("param", 2), 0), diff.get(gs, 0)
-        # which edge leads to Err?
-        err_succ = None
-        for s in ft.cfg.succ[b]:
-            reach = ft.cfg.reachable_from(s, avoid=[l.head])
-            if any(rb in reach for rb in ft.return_blocks()) and not any(x in reach for x in l.body if x != s and x in ft.cfg.succ[b] and x != s):
-                pass
+        kk = k - k2_
+        tcoef, rcoef = diff.get(("param", 2), 0), diff.get(WANT_RES, 0)
         from ..query import _switch_allows
-        e1 = [s for s in ft.cfg.succ[b] if _switch_allows(ft, b, s, {strip_site(d): 1})]
-        errs_on_true = False
-        if len(e1) == 1:
-            reach = ft.cfg.reachable_from(e1[0], avoid=[l.head])
-            errs_on_true = l.head not in ft.cfg.reachable_from(e1[0]) or not any(x in reach for x in l.body if x == l.head)
-            errs_on_true = not ft.cfg.can_reach(e1[0], l.head)
-        # d true means: (lhs OP rhs); with lhs-rhs = tcoef*target + rcoef*res + kk
         op = d[1]
-        orient = None
-        if tcoef == 1 and rcoef == -1 and kk == 0:      # (target - res) OP 0
-            orient = op in ("Lt",)
-        elif tcoef == -1 and rcoef == 1 and kk == 0:    # (res - target) OP 0
-            orient = op in ("Gt",)
-        okU3 = own and ev and errs_on_true and bool(orient) and len(errs) >= 1
+        # normalise to  (res - target) OP' 0
+        if tcoef == 1 and rcoef == -1 and kk == 0:
+            op = {"Lt": "Gt", "Gt": "Lt", "Le": "Ge", "Ge": "Le"}[op]
+        elif not (tcoef == -1 and rcoef == 1 and kk == 0):
+            op = None
+        # the edge taken when res > target must leave with Err and never come back to the loop; the other edge must stay
+        err_when = None
+        if op == "Gt":
+            err_when = 1
+        elif op == "Le":
+            err_when = 0
+        okdir = False
+        if err_when is not None:
+            e_err = [s_ for s_ in ft.cfg.succ[b] if _switch_allows(ft, b, s_, {strip_site(d0): err_when})]
+            e_ok = [s_ for s_ in ft.cfg.succ[b] if _switch_allows(ft, b, s_, {strip_site(d0): 1 - err_when})]
+            okdir = len(e_err) == 1 and len(e_ok) == 1 and e_err != e_ok and not ft.cfg.can_reach(e_err[0], l.head) and ft.cfg.can_reach(e_ok[0], l.head)
+        okU3 = ev and okdir and len(errs) >= 1
         run.inst("C09.U3", "finer-than-target-test", okU3,
-                 "every element: %s ; tests its own cell: %s ; condition %s true => leaves with Err: %s" % (ev, own, fmt(d), errs_on_true), where(facts.fns[UNC]["span"]))
+                 "every element: %s ; condition %s ; resolution > target leaves with Err and nothing else does: %s" % (ev, fmt(d)[:80], okdir), where(facts.fns[UNC]["span"]))
         # output vector created after this loop
         creators = [c for c in ft.calls() if c.dest["local"] == int(key[1:]) and not c.dest["proj"]]
         after = creators and all(c.block not in l.body and ft.cfg.can_reach(l.head, c.block) and not ft.cfg.can_reach(c.block, l.head) for c in creators)
         run.inst("C09.U3", "error-before-output", bool(after), "the output vector is created (%s) only after the validation loop has finished" % [c.callee.split("::")[-1] for c in creators], w)
+    # U5: the target resolution is refused before any work exactly when it is outside -1..=29; every valid target goes on to
+    # the element-wise test (finite evaluation of the guards that depend on the target alone)
+    from ..query import assumptions_by_eval, feasible_blocks, Undetermined as _Und
+    maxres = const_py(facts, "a5::core::serialization::MAX_RESOLUTION")
+    first_loop_heads = [l.head for l in lps]
+    wrong5 = []
+    try:
+        for tv in range(-4, 34):
+            env = {("param", 2): tv}
+            extra = assumptions_by_eval(ft, env)
+            feas = feasible_blocks(ft, extra)
+            reaches_loops = any(h in feas for h in first_loop_heads)
+            valid = -1 <= tv <= (maxres - 1 if isinstance(maxres, int) else 29)
+            if reaches_loops != valid:
+                wrong5.append((tv, "accepted" if reaches_loops else "refused"))
+        run.inst("C09.U5", "target-range", not wrong5, "targets -4..33 evaluated on the target-only guards: refused before the element loops exactly outside -1..=%s%s" % (
+            (maxres - 1) if isinstance(maxres, int) else 29, "" if not wrong5 else "; wrong: %s" % wrong5[:4]), w)
+    except _Und as e:
+        run.bad("C09.U5", "target-range", "the target-only guards cannot be evaluated (%s) - cannot decide" % e, w)
     # U4: the fan-out function consulted by uncompact, tabulated over its whole finite domain of resolutions,
     # agrees with the hierarchy (12 under the world cell, 5 per base cell, 4 per level) wherever the honest
     # result is within the property's bound of 4^8 cells
